@@ -6,7 +6,10 @@ STATUS: partial.  Both full statements are visible below as `Prop`s over the mod
 editor-prefilled UPRP with zero UPUS) and for non-zero damage of weapons no unit carries
 (recorded findings, replayed on the real code on every run).  `C03Idempotent` was false for a
 unit-property slot whose only non-zero field is the owner byte; repaired in the repository
-(21b171a: such a record is a placeholder, `cuwpRecUnused`), its witness stays in the corpus.  Proved: the fixed-point
+(21b171a: such a record is a placeholder, `cuwpRecUnused`), its witness stays in the corpus.
+Section-level idempotence is proved for EVERY input table: `c03_mrgn_section_idempotent`,
+`c03_uprp_section_idempotent`, `c03_wav_section_idempotent` (what the first cycle writes is a fixed
+point of the second, whatever the first was given).  Proved: the fixed-point
 ingredients that hold for all inputs.
 -/
 import RichchkModel.Lemmas.PassThrough
@@ -93,6 +96,118 @@ theorem c03_uprp_section_identity (cfg : RichCfg) (recs : List (List Nat))
     (fun r hr => by rw [flags_encode_decode _ hc3, Nat.mod_eq_of_lt (hb3 r hr)])
     (fun n => by rw [FlagCodec.decode_length, h6])
 
+/-- what the MRGN encoder writes for a decoded table: a placeholder, or the record of a decoded location
+whose name id is the last id of the name's text -/
+theorem mrgn_out_mem (cfg : RichCfg) (ctx : EncCtx) (recs out : List (List Nat))
+    (h : encodeMrgn cfg ctx (decodeMrgn cfg ctx.texts recs) = .ok out) (r : List Nat) (hr : r ∈ out) :
+    r = [0, 0, 0, 0, 0, 0] ∨ ∃ (x : List Nat) (sid : Nat), idByStr ctx.texts (strById ctx.texts (x.getD 4 0)) = .ok sid ∧
+      r = [x.getD 0 0, x.getD 1 0, x.getD 2 0, x.getD 3 0, sid, elevationEncode cfg (elevationDecode cfg (x.getD 5 0))] := by
+  unfold encodeMrgn at h
+  obtain ⟨hl, hall⟩ := mapR_ok h
+  obtain ⟨i, hi, rfl⟩ := List.getElem_of_mem hr
+  have hi' : i < (List.range cfg.mrgnSlots).length := by rw [← hl]; exact hi
+  have := hall i hi' hi
+  split at this
+  · left; simpa using this.symm
+  · rename_i l hf
+    have hm : l ∈ decodeMrgn cfg ctx.texts recs := List.mem_reverse.mp (List.mem_of_find?_eq_some hf)
+    obtain ⟨j, hj, _, hlj⟩ := decodeMrgn_go_mem cfg ctx.texts recs 0 l hm
+    right
+    refine ⟨recs[j], ?_⟩
+    subst hlj
+    unfold encodeLoc mkLoc at this
+    split at this
+    · simp at this
+    · rename_i sid hs
+      exact ⟨sid, hs, by simpa using this.symm⟩
+
+/-- **saving the location table is idempotent for EVERY input table** on which the first save succeeds
+(any number of records, any name ids, any elevation bits): the second cycle reproduces the first
+cycle's records exactly -/
+theorem c03_mrgn_section_idempotent (cfg : RichCfg) (ctx : EncCtx) (recs out : List (List Nat))
+    (hc : (cfg.flagsOf "mrgn_elevation").OK)
+    (h : encodeMrgn cfg ctx (decodeMrgn cfg ctx.texts recs) = .ok out) :
+    encodeMrgn cfg ctx (decodeMrgn cfg ctx.texts out) = .ok out := by
+  have hlen : out.length = cfg.mrgnSlots := by
+    have := mapR_length (by unfold encodeMrgn at h; exact h)
+    simpa using this
+  apply mrgn_rich_roundtrip cfg ctx out hlen
+  · intro r hr
+    rcases mrgn_out_mem cfg ctx recs out h r hr with h0 | ⟨x, sid, _, h1⟩
+    · subst h0; rfl
+    · subst h1; rfl
+  · intro r hr
+    rcases mrgn_out_mem cfg ctx recs out h r hr with h0 | ⟨x, sid, hs, h1⟩
+    · subst h0
+      simp only [List.getD_cons_zero, List.getD_cons_succ]
+      simp [strById, idByStr]
+    · subst h1
+      simp only [List.getD_cons_zero, List.getD_cons_succ]
+      exact c03_string_reference_idempotent ctx.texts _ sid hs
+  · intro r hr
+    rcases mrgn_out_mem cfg ctx recs out h r hr with h0 | ⟨x, sid, _, h1⟩
+    · subst h0
+      simp only [List.getD_cons_zero, List.getD_cons_succ]
+      unfold elevationEncode elevationDecode
+      rw [flags_encode_decode _ hc]; simp
+    · subst h1
+      simp only [List.getD_cons_zero, List.getD_cons_succ]
+      unfold elevationEncode elevationDecode
+      rw [flags_decode_encode _ hc _ (FlagCodec.decode_length _ _)]
+
+/-- what the UPRP encoder writes for a decoded table: a placeholder, or the record of a decoded set -/
+theorem uprp_out_mem (cfg : RichCfg) (recs : List (List Nat)) (r : List Nat)
+    (hr : r ∈ encodeUprp cfg (decodeUprp cfg recs)) :
+    r = List.replicate 10 0 ∨ ∃ x k, r = encodeCuwp cfg (decodeCuwp cfg x k) := by
+  unfold encodeUprp at hr
+  obtain ⟨i, _, hi⟩ := List.mem_map.mp hr
+  split at hi
+  · exact .inl hi.symm
+  · rename_i c hf
+    have hm : c ∈ decodeUprp cfg recs := List.mem_reverse.mp (List.mem_of_find?_eq_some hf)
+    obtain ⟨j, hj, _, hc⟩ := decodeUprp_go_mem cfg recs 0 c hm
+    exact .inr ⟨recs[j], 0 + j, by rw [← hi, hc]⟩
+
+/-- **saving the unit-property table is idempotent for EVERY input table** (any number of records of any
+length, owner bytes set, undefined flag bits set): what the first cycle writes is a fixed point of the
+second.  (Before repository fix 21b171a this was false: an owner-only record was kept by the first cycle
+and dropped by the second.) -/
+theorem c03_uprp_section_idempotent (cfg : RichCfg) (recs : List (List Nat))
+    (hc1 : (cfg.flagsOf "cuwp_valid_special").OK) (hc2 : (cfg.flagsOf "cuwp_valid_unit").OK)
+    (hc3 : (cfg.flagsOf "cuwp_unit").OK) (h6 : (cfg.flagsOf "cuwp_unit").fields.length = 6) :
+    encodeUprp cfg (decodeUprp cfg (encodeUprp cfg (decodeUprp cfg recs))) =
+      encodeUprp cfg (decodeUprp cfg recs) := by
+  have hlen6 : ∀ n, ((cfg.flagsOf "cuwp_unit").decode n).length = 6 := fun n => by
+    rw [FlagCodec.decode_length, h6]
+  apply c03_uprp_section_identity cfg _ (by simp [encodeUprp]) _ _ hc1 hc2 hc3 h6
+  · intro r hr
+    rcases uprp_out_mem cfg recs r hr with h | ⟨x, k, h⟩
+    · subst h; simp; exact Nat.pos_of_neZero _
+    · subst h
+      simp only [encodeCuwp, decodeCuwp, List.getD_cons_zero]
+      exact flags_encode_lt _ hc1 _ (FlagCodec.decode_length _ _)
+  · intro r hr
+    rcases uprp_out_mem cfg recs r hr with h | ⟨x, k, h⟩
+    · subst h; simp; exact Nat.pos_of_neZero _
+    · subst h
+      simp only [encodeCuwp, decodeCuwp, List.getD_cons_zero, List.getD_cons_succ]
+      exact flags_encode_lt _ hc2 _ (FlagCodec.decode_length _ _)
+  · intro r hr
+    rcases uprp_out_mem cfg recs r hr with h | ⟨x, k, h⟩
+    · subst h; simp; exact Nat.pos_of_neZero _
+    · subst h
+      simp only [encodeCuwp, decodeCuwp, List.getD_cons_zero, List.getD_cons_succ]
+      rw [take5_getD5 _ (hlen6 _)]
+      exact flags_encode_lt _ hc3 _ (FlagCodec.decode_length _ _)
+  · intro r hr
+    rcases uprp_out_mem cfg recs r hr with h | ⟨x, k, h⟩
+    · subst h; rfl
+    · subst h; rfl
+  · intro r hr
+    rcases uprp_out_mem cfg recs r hr with h | ⟨x, k, h⟩
+    · subst h; rfl
+    · subst h; rfl
+
 /-- **WAV**: every entry referencing its path by the last id of that text -/
 theorem c03_wav_section_identity (cfg : RichCfg) (ctx : EncCtx) (ids : List Nat)
     (hlen : ids.length = cfg.wavSlots)
@@ -100,6 +215,37 @@ theorem c03_wav_section_identity (cfg : RichCfg) (ctx : EncCtx) (ids : List Nat)
     encodeWav cfg ctx ((List.range ids.length).filterMap fun i =>
       if ids.getD i 0 ≠ 0 then some (⟨strById ctx.texts (ids.getD i 0), i⟩ : RWav) else none) = .ok ids :=
   wav_rich_roundtrip cfg ctx ids hlen hstr
+
+/-- the sound entries the rich layer reads from a WAV id table -/
+def wavEntries (texts : List Bytes) (ids : List Nat) : List RWav :=
+  (List.range ids.length).filterMap fun i =>
+    if ids.getD i 0 ≠ 0 then some (⟨strById texts (ids.getD i 0), i⟩ : RWav) else none
+
+/-- **saving the sound table is idempotent for EVERY input table** on which the first save succeeds -/
+theorem c03_wav_section_idempotent (cfg : RichCfg) (ctx : EncCtx) (ids out : List Nat)
+    (h : encodeWav cfg ctx (wavEntries ctx.texts ids) = .ok out) :
+    encodeWav cfg ctx (wavEntries ctx.texts out) = .ok out := by
+  have hlen : out.length = cfg.wavSlots := by
+    have := mapR_length (by unfold encodeWav at h; exact h)
+    simpa using this
+  apply wav_rich_roundtrip cfg ctx out hlen
+  intro v hv
+  unfold encodeWav at h
+  obtain ⟨hl, hall⟩ := mapR_ok h
+  obtain ⟨i, hi, rfl⟩ := List.getElem_of_mem hv
+  have hi' : i < (List.range cfg.wavSlots).length := by rw [← hl]; exact hi
+  have := hall i hi' hi
+  split at this
+  · have h0 : out[i] = 0 := by simpa using this.symm
+    rw [h0]; simp [strById, idByStr]
+  · rename_i w hf
+    have hm : w ∈ wavEntries ctx.texts ids := List.mem_reverse.mp (List.mem_of_find?_eq_some hf)
+    unfold wavEntries at hm
+    obtain ⟨j, _, hj⟩ := filterMap_range_mem _ _ w hm
+    split at hj
+    · cases hj
+      exact c03_string_reference_idempotent ctx.texts _ _ this
+    · cases hj
 
 /-! the same, for the configuration regenerated from the source (`richCfg`): the abstract
 hypotheses become concrete numbers -/
@@ -132,5 +278,12 @@ theorem c03_uprp_identity_generated (recs : List (List Nat))
   exact c03_uprp_section_identity richCfg recs (by rw [h10]; exact hlen) hw howner h3 h5 h7 h8
     (fun r hr => by rw [h4]; exact hb1 r hr) (fun r hr => by rw [h6]; exact hb2 r hr)
     (fun r hr => by rw [h8]; exact hb3 r hr)
+
+/-- the same for the configuration regenerated from the source -/
+theorem c03_uprp_idempotent_generated (recs : List (List Nat)) :
+    encodeUprp richCfg (decodeUprp richCfg (encodeUprp richCfg (decodeUprp richCfg recs))) =
+      encodeUprp richCfg (decodeUprp richCfg recs) := by
+  obtain ⟨_, _, h3, _, h5, _, h7, h8, _, _, _⟩ := generated_codec_facts
+  exact c03_uprp_section_idempotent richCfg recs h3 h5 h7 h8
 
 end Richchk.Props.C03
